@@ -379,6 +379,7 @@ func (n *node) run() {
 			lead = r.lead
 		}
 
+		verifYield(n, verifLoopTop, propc != nil, readyc != nil, advancec != nil)
 		select {
 		// TODO: maybe buffer the config propose if there exists one (the way
 		// described in raft dissertation)
@@ -387,6 +388,7 @@ func (n *node) run() {
 			m := pm.m
 			m.From = new(r.id)
 			err := r.Step(m)
+			verifYield(n, verifLoopProposalStepped, false, false, false)
 			if pm.result != nil {
 				pm.result <- err
 				close(pm.result)
@@ -537,6 +539,7 @@ func (n *node) stepWithWaitOption(ctx context.Context, m *pb.Message, wait bool)
 	case <-n.done:
 		return ErrStopped
 	}
+	verifYield(n, verifProposalHandedOver, false, false, false)
 	select {
 	case err := <-pm.result:
 		if err != nil {
